@@ -133,3 +133,28 @@ def control_text(rng, maxlines=14, mixed_terms=0.15):
         if i < n - 1 or rng.random() < .7:
             out.append(rng.choice(['\n', '\r\n', '\r']) if mixed else term)
     return ''.join(out)
+
+
+def corrupt_doc(rng, text):
+    """one to three edits of a well-formed document: delete/duplicate/swap a line, insert a
+    blank, damage a delimiter"""
+    ls = text.split('\n')
+    for _ in range(rng.randint(1, 3)):
+        if not ls:
+            break
+        i = rng.randrange(len(ls))
+        k = rng.random()
+        if k < .2:
+            del ls[i]
+        elif k < .4:
+            ls.insert(i, ls[i])
+        elif k < .55 and len(ls) > 1:
+            j = rng.randrange(len(ls))
+            ls[i], ls[j] = ls[j], ls[i]
+        elif k < .7:
+            ls.insert(i, rng.choice(['', ' ', '\t']))
+        elif k < .85:
+            ls[i] = ls[i].replace(':', rng.choice(['', ' ', ';', '::']), 1)
+        else:
+            ls[i] = ls[i].lstrip() if ls[i][:1] in ' \t' else ' ' + ls[i]
+    return '\n'.join(ls)
